@@ -56,6 +56,9 @@ func (d *Driver) getServerCapabilities() ([]byte, error) {
 		defer close(cr)
 
 		b, err := d.Channel.ReadUntilPrompt(ctx)
+
+		verifYield("nopen.post_read")
+
 		if err != nil {
 			cr <- &result{b: b, err: err}
 		}
